@@ -524,6 +524,12 @@ func Run(sc *Scenario) *Result {
 		tracer.Emit(ev, proc, inst, kv...)
 	}
 	app.VerifGateFn = d.gate
+	// Run()'s wait being satisfied (count zero) is the linearization point of its return
+	app.VerifWgFn = func(delta int, n int) {
+		if delta == 0 {
+			tracer.Emit("WgZero", "", 0, "n", n)
+		}
+	}
 	app.VerifCommanderFn = func(info app.VerifLaunchInfo) command.Commander {
 		argv := append([]string{info.Executable}, info.Args...)
 		return fakecmd.New(info.Proc, info.Inst, info.Attempt, argv, d.behaviour(info.Proc, info.Attempt))
